@@ -49,9 +49,16 @@ def check_a(ctx, facts):
         ctx.error('C11.a', 'anchor Wire.setSource not found')
         return
     p = ss.args.args[1].arg
-    for name, val, want in (('wire already driven', Obj('port'), 'raise'), ('wire undriven', None, 'store')):
+    A, B = Obj('block A'), Obj('block B')
+    for name, val, want, par in (('wire already driven by another block', Obj('port'), 'raise', (A, B)),
+                                 ('wire already driven by another port of the same block', Obj('port'), 'raise', (A, A)),
+                                 ('wire undriven', None, 'store', (A, B))):
         try:
-            fs = feasible(fn_paths(ss), {'self.source': val, 'self.getSource()': val}, single_defs(ss))
+            atoms = {'self.source': val, 'self.getSource()': val, '%s.parent' % p: par[1], '%s' % p: Obj('new port')}
+            if val is not None:
+                atoms['self.source.parent'] = par[0]
+                atoms['self.getSource().parent'] = par[0]
+            fs = feasible(fn_paths(ss), atoms, single_defs(ss))
         except Unknown as e:
             ctx.error('C11.a', 'setSource guard not evaluable: %s' % e)
             return
